@@ -137,11 +137,12 @@ Definition rd_agree (c : rd_case) : bool :=
    centres W c0, W c1 and the shape matrices r_i r_j L L^T (L = linear part of W) *)
 Definition sym2 (w : QA) (k : Qc) : Qc * Qc * Qc :=
   (k * (aa w * aa w + ac w * ac w), k * (aa w * ab w + ac w * ad w), k * (ab w * ab w + ad w * ad w)).
-Definition rel_close (x y : Qc) : bool :=
-  qle (qabs (x - y)) (q 1 1000 + q 1 10000 * (qabs x + qabs y)).
+(* entries are compared relative to the size of the whole shape matrix (its trace): the
+   remainder is rounded to 9 decimals, an absolute error on entries of size r^2 *)
 Definition sym2_close (a b : Qc * Qc * Qc) : bool :=
   let '(a1, a2, a3) := a in let '(b1, b2, b3) := b in
-  rel_close a1 b1 && rel_close a2 b2 && rel_close a3 b3.
+  let tol := q 1 1000 + q 1 1000000 * (qabs a1 + qabs a3 + qabs b1 + qabs b3) in
+  within tol a1 b1 && within tol a2 b2 && within tol a3 b3.
 Definition pt_close (tol : Qc) (p r : QPt) : bool := within tol (px p) (px r) && within tol (py p) (py r).
 Definition rd_prop (c : rd_case) : bool :=
   let '(hx, hy, t, chk, g, out) := c in
